@@ -181,7 +181,7 @@ rows_harness!(c12_frozen_7, FROZEN, N_FROZEN, 7, 8, true);
 /// routes, a strict prefix finds nothing. (2) one byte of the name replaced by an arbitrary ASCII byte:
 /// the result is a suite carrying exactly the queried name, and it is this suite iff the byte is unchanged.
 macro_rules! name_harness {
-    ($name:ident, $name_neg:ident, $name_sym:ident, $pick:expr) => {
+    ($name:ident, $name_neg:ident, $name_sym:ident, $name_case:ident, $pick:expr) => {
         #[kani::proof]
         #[kani::unwind(356)]
         fn $name() {
@@ -215,6 +215,22 @@ macro_rules! name_harness {
             vcover!(true, "C12.cover.from_name_negative");
         }
 
+        /// negative lookup (concrete), quick tier: the same name with the case of one letter flipped
+        #[kani::proof]
+        #[kani::unwind(356)]
+        fn $name_case() {
+            let idx = (($pick as u64 + SEED * 7) % (N_ROWS as u64)) as usize;
+            let r = &ROWS[idx];
+            let n = r.name.len();
+            let mut lc = [0u8; 64];
+            lc[..n].copy_from_slice(r.name.as_bytes());
+            lc[0] ^= 0x20; // 'T' -> 't'
+            let sl = unsafe { core::str::from_utf8_unchecked(&lc[..n]) };
+            let f = TlsCipherSuite::from_name(sl);
+            vassert!(f.is_none(), "C12.from_name.other_string_does_not_find_this_suite");
+            vcover!(true, "C12.cover.from_name_case");
+        }
+
         #[kani::proof]
         #[kani::unwind(356)]
         fn $name_sym() {
@@ -244,5 +260,5 @@ macro_rules! name_harness {
         }
     };
 }
-name_harness!(c12_from_name_a, c12_from_name_neg_a, c12_from_name_sym_a, 17);
-name_harness!(c12_from_name_b, c12_from_name_neg_b, c12_from_name_sym_b, 203);
+name_harness!(c12_from_name_a, c12_from_name_neg_a, c12_from_name_sym_a, c12_from_name_case_a, 17);
+name_harness!(c12_from_name_b, c12_from_name_neg_b, c12_from_name_sym_b, c12_from_name_case_b, 203);
